@@ -80,6 +80,7 @@ type retPoint struct {
 	reach string
 	res   []TV
 	pos   token.Pos
+	block int
 }
 
 type FnVC struct {
@@ -124,6 +125,7 @@ type FnVC struct {
 	closures     map[ssa.Value]*ssa.MakeClosure
 	genErr       string
 	ghostElem    map[string]types.Type
+	ghostDesc    map[string]string
 	heapNextref  map[string]string
 	extra        []*Obl
 }
@@ -206,6 +208,10 @@ func (f *FnVC) posStr(p token.Pos) string {
 }
 
 func (f *FnVC) oblige(kind, text, cond string, pos token.Pos) *Obl {
+	if strings.HasPrefix(kind, "panic.") && f.c != nil && !f.c.NoPanic {
+		// the contract does not claim panic freedom: no obligation, and nothing is assumed either
+		return &Obl{}
+	}
 	o := &Obl{ID: len(f.obls), Fn: f.key, Kind: kind, Text: text, Cond: sImp(f.curReach(), cond), Pos: f.posStr(pos), Assumed: true}
 	f.obls = append(f.obls, o)
 	return o
@@ -260,9 +266,7 @@ func (f *FnVC) ghostHeap(name string) (string, types.Type, bool) {
 		return "", nil, false
 	}
 	if strings.HasPrefix(gv.Type, "gmap[") {
-		k, v := f.gmapTypes(gv)
-		so := "(Array " + f.sorts.sortOf(k) + " " + f.sorts.sortOf(v) + ")"
-		return f.regHeap("Gh_"+name, so), nil, true
+		return f.regHeap("Gh_"+name, f.gmapSort(gv.Type, gv.Pkg)), nil, true
 	}
 	ty := f.g.resolveType(gv.Type, gv.Pkg, f.pkgPath())
 	so := "Int"
@@ -651,6 +655,7 @@ func (f *FnVC) findLoops() {
 			li.spec = &LoopSpec{}
 		}
 		f.varsAtHead(li)
+		f.rangeIndexInvariant(li)
 	}
 }
 
@@ -739,4 +744,55 @@ func (f *FnVC) order() []*ssa.BasicBlock {
 		post[i], post[j] = post[j], post[i]
 	}
 	return post
+}
+
+// mapcard: number of keys of a map domain (uninterpreted, per key sort; >= 0).
+func (f *FnVC) mapcard(dom string, mdHeap string) string {
+	so := f.heapSort[mdHeap] // (Array Int (Array K Bool))
+	inner := strings.TrimSuffix(strings.TrimPrefix(so, "(Array Int "), ")")
+	fn := f.declFun("mapcard_"+sanitize(inner), []string{inner}, "Int")
+	t := sApp(fn, dom)
+	f.fact("(>= " + t + " 0)")
+	return t
+}
+
+// rangeIndexInvariant adds the obvious invariant of a compiler-generated range-over-slice loop:
+//   -1 <= rangeindex < N   where the loop guard is rangeindex+1 < N and N is fixed before the loop.
+// It is proved like any other invariant (entry and step obligations are generated).
+func (f *FnVC) rangeIndexInvariant(li *loopInfo) {
+	var phi *ssa.Phi
+	for _, in := range li.head.Instrs {
+		if p, ok := in.(*ssa.Phi); ok && p.Comment == "rangeindex" {
+			phi = p
+		}
+	}
+	if phi == nil {
+		return
+	}
+	var inc *ssa.BinOp
+	for _, in := range li.head.Instrs {
+		if b, ok := in.(*ssa.BinOp); ok && b.Op == token.ADD && b.X == phi {
+			inc = b
+		}
+	}
+	iff, ok := li.head.Instrs[len(li.head.Instrs)-1].(*ssa.If)
+	if inc == nil || !ok {
+		return
+	}
+	cmp, ok := iff.Cond.(*ssa.BinOp)
+	if !ok || cmp.Op != token.LSS || cmp.X != inc {
+		return
+	}
+	if ins, isInstr := cmp.Y.(ssa.Instruction); isInstr && li.blocks[ins.Block().Index] {
+		return // bound computed inside the loop
+	}
+	li.names["$rangelen"] = cmp.Y
+	cp := *li.spec
+	c, err := mkClause("-1 <= rangeindex && rangeindex < $rangelen")
+	if err != nil {
+		return
+	}
+	c.Text = "(auto) range index stays within -1..len-1"
+	cp.Invariants = append([]Clause{c}, cp.Invariants...)
+	li.spec = &cp
 }
